@@ -227,6 +227,9 @@ func c16RealOracle(sc *Scenario, r *Result, rr *RealResult) *Violation {
 			Detail: fmt.Sprintf("the simulated run exits %d, the shipped fc on a real directory exits %d: %s", r.Exit, rr.Exit, tail(rr.Stdout+rr.Stderr, 300))}
 	}
 	final := r.FinalFiles(sc)
+	for p := range sc.Disk.Links {
+		delete(final, filepath.Clean(p)) // a path that is a symlink to /dev/full holds no bytes to compare
+	}
 	for p, b := range rr.Changed {
 		if want, ok := final[p]; !ok || string(want) != string(b) {
 			return &Violation{Class: "real-disk", Signature: "real-disk:content",
@@ -236,6 +239,9 @@ func c16RealOracle(sc *Scenario, r *Result, rr *RealResult) *Violation {
 	for p, b := range r.Written() {
 		old, had := sc.Disk.Get(p)
 		if had && string(old) == string(b) {
+			continue
+		}
+		if _, isLink := sc.Disk.Links[p]; isLink {
 			continue
 		}
 		if _, ok := rr.Changed[p]; !ok {
@@ -661,6 +667,31 @@ func checkC16(tier string) {
 		sc.Real = true
 		sc.TickBudget = budget
 		c.count("real_directory_runs", 1)
+		rr := common.NewRng(common.Mix(c.Seed, 161616, uint64(k)))
+		var okWrites []Event
+		for _, w := range twins[k*25].Writes() {
+			if w.Ok {
+				okWrites = append(okWrites, w)
+			}
+		}
+		switch {
+		case len(okWrites) > 0 && rr.Chance(1, 3):
+			// what an earlier run of a longer program leaves behind: the new output followed by more text, newer
+			// than the sources
+			for _, w := range okWrites {
+				b, _ := base64.StdEncoding.DecodeString(w.Data)
+				sc.Disk.Put(w.Path, append(append([]byte{}, b...), []byte("\n// tail of an older, longer output\nfunc zzOld() {}\n")...), "stale extension")
+			}
+			c.count("real_directory_runs_with_stale_extension", 1)
+		case len(okWrites) > 0 && rr.Chance(1, 3):
+			// a full disk for one output: simulated as a write error on that write, on the real directory as a
+			// symlink to /dev/full in its place
+			j := rr.Intn(len(okWrites))
+			sc.Faults = []Fault{{Op: "write", Nth: okWrites[j].I, Kind: "error"}}
+			delete(sc.Disk.Files, okWrites[j].Path)
+			sc.Disk.Links = map[string]string{okWrites[j].Path: "/dev/full"}
+			c.count("real_directory_runs_with_dev_full", 1)
+		}
 		return outcome{sc, judgeC16(c, sc)}
 	}, nil)
 	for _, o := range routs {
